@@ -20,7 +20,7 @@ use std::process::{Command, Stdio};
 use std::sync::atomic::{AtomicUsize, Ordering};
 use std::sync::{Arc, Mutex};
 
-pub const FAMILIES: [&str; 79] = [
+pub const FAMILIES: [&str; 87] = [
     "block-literal-lines",
     "block-folded-long-lines",
     "block-wide-indent",
@@ -83,6 +83,14 @@ pub const FAMILIES: [&str; 79] = [
     "distinct-tag-handle-per-document",
     "indent-map-chain-wide-payload-unresolvable-tag",
     "indent-map-chain-wide-payload",
+    "map-entries-twice",
+    "explicit-keys-twice",
+    "sibling-sequence-keys-twice",
+    "flow-map-long-twice",
+    "flow-seq-explicit-keys",
+    "flow-map-explicit-keys",
+    "flow-seq-anchored-tagged-entries",
+    "flow-seq-explicit-single-pairs",
     "wide-flowseq-then-deep-nest",
     "wide-blockseq-then-deep-nest",
     "wide-flowmap-then-deep-nest",
@@ -196,6 +204,46 @@ pub fn render(family: &str, bytes: usize) -> String {
                 }
                 s.push('\n');
             }
+        }
+        // every distinct key written twice in the same mapping
+        "map-entries-twice" | "explicit-keys-twice" | "sibling-sequence-keys-twice" | "flow-map-long-twice" => {
+            let flow = family == "flow-map-long-twice";
+            if flow {
+                s.push('{');
+            }
+            let mut n = 0usize;
+            for pass in 0..2 {
+                let mut j = 0usize;
+                while (pass == 0 && s.len() < bytes / 2) || (pass == 1 && j < n) {
+                    match family {
+                        "map-entries-twice" => s.push_str(&format!("key{j}: value{j}\n")),
+                        "explicit-keys-twice" => s.push_str(&format!("? key{j}\n: value\n")),
+                        "sibling-sequence-keys-twice" => s.push_str(&format!("[{}, {}]: v\n", j / 100, j % 100)),
+                        _ => s.push_str(&format!("k{j}: v, ")),
+                    }
+                    j += 1;
+                }
+                if pass == 0 {
+                    n = j;
+                }
+            }
+            if flow {
+                s.push_str("z: z}\n");
+            }
+        }
+        // one flow collection with thousands of explicit keys / anchored and tagged entries
+        "flow-seq-explicit-keys" | "flow-map-explicit-keys" | "flow-seq-anchored-tagged-entries" | "flow-seq-explicit-single-pairs" => {
+            s.push(if family == "flow-map-explicit-keys" { '{' } else { '[' });
+            while s.len() < bytes {
+                match family {
+                    "flow-seq-explicit-keys" => s.push_str("? a, "),
+                    "flow-map-explicit-keys" => s.push_str(&format!("? k{k} : v, ")),
+                    "flow-seq-anchored-tagged-entries" => s.push_str(&format!("&a{k} !t x, *a{k}, ")),
+                    _ => s.push_str("? a : b, "),
+                }
+                k += 1;
+            }
+            s.push_str(if family == "flow-map-explicit-keys" { "z: z}\n" } else { "z]\n" });
         }
         "map-entries" => {
             while s.len() < bytes {
